@@ -106,14 +106,14 @@ func genShapeLists(rng *rand.Rand, n int) [][]int {
 	}
 	k := inRange(rng, n, 1)[0]
 	lists = append(lists,
-		[]int{k},                               // single entry
-		[]int{k, n + 1},                        // page count + 1 after a valid entry
-		append(inRange(rng, n, 1+rng.IntN(3)), beyond()), // valid entries, then one beyond
+		[]int{k},        // single entry
+		[]int{k, n + 1}, // page count + 1 after a valid entry
+		append(inRange(rng, n, 1+rng.IntN(3)), beyond()),                                    // valid entries, then one beyond
 		append(inRange(rng, n, 1+rng.IntN(3)), n+1, n+2+rng.IntN(5), bigNrs[2+rng.IntN(2)]), // several beyond
-		[]int{1, max(2, k)},                    // entry 1 first
-		[]int{0, k}, []int{-k, k},              // below 1
-		[]int{k, k},                            // duplicate
-		[]int{k, beyond(), k},                  // unsorted through an entry beyond
+		[]int{1, max(2, k)},       // entry 1 first
+		[]int{0, k}, []int{-k, k}, // below 1
+		[]int{k, k},           // duplicate
+		[]int{k, beyond(), k}, // unsorted through an entry beyond
 	)
 	// entry == page count inside a longer list, with and without entries beyond
 	head := inRange(rng, n, rng.IntN(3))
